@@ -339,3 +339,203 @@ VEC_MODELS = {
     r"^Result::<.*>::expect$": m_result_expect,
     r"^<quantity::Value as ToOwned>::to_owned$": m_identity,
 }
+
+
+# ----------------------------------------------------------------------------------------------
+# integer helpers (exact models over mathematical integers with the type's range)
+
+def _int_range(sort):
+    import smt
+    bits, signed = smt.INT_BITS[sort]
+    return (-(2 ** (bits - 1)), 2 ** (bits - 1) - 1) if signed else (0, 2 ** bits - 1)
+
+
+def _m_checked(op):
+    def model(it, args, callee):
+        a, b = args
+        lo, hi = _int_range(a.sort)
+        raw = it.sem.define("Int", "(%s %s %s)" % (op, a.expr, b.expr), "ck")
+        ok = "(and (<= %s %s) (<= %s %s))" % (lo if lo >= 0 else "(- %d)" % -lo, raw, raw, hi)
+        return mk_option(it, SV("isize", "(ite %s 1 0)" % ok), SV(a.sort, raw))
+    return model
+
+
+def _m_saturating(op):
+    def model(it, args, callee):
+        a, b = args
+        lo, hi = _int_range(a.sort)
+        raw = "(%s %s %s)" % (op, a.expr, b.expr)
+        los = str(lo) if lo >= 0 else "(- %d)" % -lo
+        return SV(a.sort, it.sem.define("Int", "(ite (< %s %s) %s (ite (> %s %d) %d %s))" % (raw, los, los, raw, hi, hi, raw), "sat"))
+    return model
+
+
+def _m_wrapping(op):
+    def model(it, args, callee):
+        a, b = args
+        return SV(a.sort, it.sem.int_arith({"+": "Add", "-": "Sub", "*": "Mul"}[op], a.expr, b.expr, a.sort))
+    return model
+
+
+INT_MODELS = {}
+for _name, _op in (("add", "+"), ("sub", "-"), ("mul", "*")):
+    INT_MODELS[r"^core::num::<impl \w+>::checked_%s$" % _name] = _m_checked(_op)
+    INT_MODELS[r"^core::num::<impl \w+>::saturating_%s$" % _name] = _m_saturating(_op)
+    INT_MODELS[r"^core::num::<impl \w+>::wrapping_%s$" % _name] = _m_wrapping(_op)
+STD_MODELS.update(INT_MODELS)
+
+
+# ----------------------------------------------------------------------------------------------
+# iteration over a Vec of concrete length
+
+class IterVal:
+    def __init__(self, items, pos=0):
+        self.items, self.pos = items, pos
+
+
+def m_vec_into_iter(it, args, callee):
+    return IterVal(list(_vec(it, args[0]).items))
+
+
+def m_iter_next(it, args, callee):
+    ref = args[0]
+    cur = it.deref(ref, it.cur_env)
+    if not isinstance(cur, IterVal):
+        raise Unsupported("Iterator::next on %r" % (cur,))
+    if cur.pos >= len(cur.items):
+        return it._mk_enum("Option", "None", [])
+    it.write_ref(ref, IterVal(cur.items, cur.pos + 1), it.cur_env)
+    return it._mk_enum("Option", "Some", [cur.items[cur.pos]])
+
+
+VEC_MODELS.update({
+    r"^<&Vec<.*> as IntoIterator>::into_iter$": m_vec_into_iter,
+    r"^<std::slice::Iter<'_, .*> as Iterator>::next$": m_iter_next,
+})
+
+
+def m_split_first(it, args, callee):
+    v = _vec(it, args[0])
+    if not v.items:
+        return it._mk_enum("Option", "None", [])
+    return it._mk_enum("Option", "Some", [Agg("tuple", {"0": v.items[0], "1": VecVal(v.items[1:])})])
+
+
+def m_split_last(it, args, callee):
+    v = _vec(it, args[0])
+    if not v.items:
+        return it._mk_enum("Option", "None", [])
+    return it._mk_enum("Option", "Some", [Agg("tuple", {"0": v.items[-1], "1": VecVal(v.items[:-1])})])
+
+
+def m_extend_from_slice(it, args, callee):
+    v = _vec(it, args[0])
+    other = _vec(it, args[1])
+    it.write_ref(args[0], VecVal(v.items + other.items), it.cur_env)
+    return Opaque("unit")
+
+
+def m_slice_iter(it, args, callee):
+    return IterVal(list(_vec(it, args[0]).items))
+
+
+VEC_MODELS.update({
+    r"^core::slice::<impl \[.*\]>::split_first$": m_split_first,
+    r"^core::slice::<impl \[.*\]>::split_last$": m_split_last,
+    r"^Vec::<.*>::extend_from_slice$": m_extend_from_slice,
+    r"^core::slice::<impl \[.*\]>::iter$": m_slice_iter,
+    r"^<&\[.*\] as IntoIterator>::into_iter$": m_slice_iter,
+    r"^<Vec<.*> as Deref>::deref$": m_identity,
+    r"^<Vec<.*> as DerefMut>::deref_mut$": m_identity,
+})
+
+
+# ----------------------------------------------------------------------------------------------
+# `?` on Result
+
+def m_try_result(it, args, callee):
+    r = args[0]
+    out = []
+    d = r.discr.expr
+    for idx, name in ((0, "Ok"), (1, "Err")):
+        if name not in r.variants:
+            continue
+        if re.match(r"^\d+$", d):
+            if int(d) != idx:
+                continue
+            pc = []
+        else:
+            pc = ["(= %s %d)" % (d, idx)]
+        if name == "Ok":
+            payload = r.variants["Ok"].fields.get("0", Opaque("unit"))
+            out.append((pc, Enum("ControlFlow", SV("isize", "0"), {"Continue": Agg("Continue", {"0": payload})}, ["Continue", "Break"]), "return", None))
+        else:
+            resid = it._mk_enum("Result", "Err", [r.variants["Err"].fields.get("0", Opaque("error"))])
+            out.append((pc, Enum("ControlFlow", SV("isize", "1"), {"Break": Agg("Break", {"0": resid})}, ["Continue", "Break"]), "return", None))
+    return out
+
+
+def m_from_residual_result(it, args, callee):
+    r = args[0]
+    payload = r.variants["Err"].fields["0"] if isinstance(r, Enum) and "Err" in r.variants else Opaque("error")
+    return it._mk_enum("Result", "Err", [Opaque("converted error", [payload])])
+
+
+RESULT_MODELS = {
+    r"^<Result<.*> as Try>::branch$": m_try_result,
+    r"as FromResidual<Result<Infallible, .*>>>::from_residual$": m_from_residual_result,
+    r"^<std::option::Option<std::string::String> as Clone>::clone$": m_identity,
+    r"^<quantity::Quantity as Clone>::clone$": m_identity,
+}
+
+
+def m_then_some(it, args, callee):
+    b, v = args
+    if b.expr in ("true", "false"):
+        return it._mk_enum("Option", "Some", [v]) if b.expr == "true" else it._mk_enum("Option", "None", [])
+    return mk_option(it, SV("isize", "(ite %s 1 0)" % b.expr), v)
+
+
+def m_result_ok(it, args, callee):
+    r = args[0]
+    d = r.discr.expr
+    payload = r.variants["Ok"].fields["0"] if "Ok" in r.variants else Opaque("none")
+    if re.match(r"^\d+$", d):
+        return it._mk_enum("Option", "Some", [payload]) if d == "0" else it._mk_enum("Option", "None", [])
+    return mk_option(it, SV("isize", "(ite (= %s 0) 1 0)" % d), payload)
+
+
+def m_option_ok_or(it, args, callee):
+    opt, e = args
+    out = []
+    for pc, is_some, payload in opt_cases(it, opt):
+        out.append((pc, it._mk_enum("Result", "Ok", [payload]) if is_some else it._mk_enum("Result", "Err", [e]), "return", None))
+    return out
+
+
+_old_and_then = m_option_and_then
+
+
+def m_option_and_then2(it, args, callee):
+    opt, clo = args
+    if isinstance(clo, Opaque) and clo.what.startswith("fnitem:"):
+        target = it.auto_resolve(clo.what[len("fnitem:"):], [None])
+        if target is None:
+            raise Unsupported("Option::and_then with function item %s" % clo.what)
+        res = []
+        for pc, is_some, payload in opt_cases(it, opt):
+            if not is_some:
+                res.append((pc, it._mk_enum("Option", "None", []), "return", None))
+            else:
+                for (pc2, val, kind, msg) in it.call_fn(target, [payload]):
+                    res.append((pc + pc2, val, kind, msg))
+        return res
+    return _old_and_then(it, args, callee)
+
+
+MORE_MODELS.update({
+    r"^core::bool::<impl bool>::then_some::<": m_then_some,
+    r"^Result::<.*>::ok$": m_result_ok,
+    r"^std::option::Option::<.*>::ok_or::<": m_option_ok_or,
+    r"^std::option::Option::<.*>::and_then::<": m_option_and_then2,
+})
